@@ -11,6 +11,7 @@ from astropy.utils.data import get_readable_fileobj
 from astropy.utils.exceptions import AstropyUserWarning
 
 from regions.core import PixCoord, RegionMeta, Regions, RegionVisual
+from regions._utils import verif as _verif
 from regions.core.registry import RegionsRegistry
 from regions.io.ds9.core import (DS9ParserError, ds9_frame_map,
                                  ds9_params_template, ds9_shape_to_region,
@@ -148,7 +149,14 @@ def _parse_raw_data(region_str):
 
     regex_frame_or_shape = re.compile('^#? *([+-]?)([a-zA-Z0-9]+)')
 
-    for line in _split_lines(region_str):  # split on semicolons & newlines
+    def _state():
+        return {'frame': frame, 'global_meta': dict(global_meta),
+                'composite_meta': dict(composite_meta or {}),
+                'n_region_data': len(region_data)}
+
+    # split on semicolons & newlines
+    for line in _verif.traced(_split_lines(region_str), 'ds9.read.line',
+                              _state):
         # skip blank lines
         if not line:
             continue
